@@ -41,6 +41,7 @@ type Contract struct {
 	ModAny   bool // "modifies *": callers havoc everything (only for externs that run user code)
 	MayPanic bool // `panics *`: may panic under any circumstances
 	Pure     bool
+	Reveals  map[string]bool
 	Expect   int // minimum number of obligations
 	File     string
 	Line     int
@@ -78,6 +79,7 @@ type SpecFunc struct {
 	Ret    string
 	Body   Expr
 	Src    string
+	Opaque bool
 }
 
 type ImplDecl struct {
@@ -118,8 +120,8 @@ var (
 	reHeader = regexp.MustCompile(`^(\S.*?)(\(([A-Za-z0-9_, ]*)\))?\s*(\(([A-Za-z0-9_, ]*)\))?\s*(\[([A-Za-z0-9_, ]+)\])?$`)
 )
 
-var blockKeywords = map[string]bool{"func": true, "extern": true, "functype": true, "trusted": true, "loop": true, "ghost": true, "spec": true, "impl": true, "guarded": true}
-var clauseKeywords = map[string]bool{"requires": true, "ensures": true, "xensures": true, "defines": true, "panics": true, "modifies": true, "invariant": true, "decreases": true, "expect": true, "vars": true, "pure": true, "ghostset": true}
+var blockKeywords = map[string]bool{"func": true, "extern": true, "functype": true, "trusted": true, "loop": true, "ghost": true, "spec": true, "opaque": true, "impl": true, "guarded": true}
+var clauseKeywords = map[string]bool{"requires": true, "ensures": true, "xensures": true, "defines": true, "panics": true, "modifies": true, "invariant": true, "decreases": true, "expect": true, "vars": true, "pure": true, "ghostset": true, "reveals": true}
 
 func splitList(s string) []string {
 	var out []string
@@ -291,8 +293,18 @@ func (ct *ContractTable) parseLines(lines []rawLine, pkg string) error {
 			g := &GhostDecl{Name: strings.TrimSpace(rest[:i]), KeySort: splitList(rest[i+1 : j]), ValType: strings.TrimSpace(rest[j+1:])}
 			ct.Ghosts[g.Name] = g
 			curC, curL = nil, nil
-		case "spec":
-			// spec name(a T, b U) R = expr
+		case "reveals":
+			if curC == nil {
+				return errf("reveals outside function contract")
+			}
+			if curC.Reveals == nil {
+				curC.Reveals = map[string]bool{}
+			}
+			for _, n := range splitList(rest) {
+				curC.Reveals[n] = true
+			}
+		case "spec", "opaque":
+			// spec name(a T, b U) R = expr      (opaque spec: `opaque name(...) R = expr`)
 			eq := strings.Index(rest, "=")
 			for eq >= 0 && eq+1 < len(rest) && (rest[eq+1] == '=' || (eq > 0 && (rest[eq-1] == '=' || rest[eq-1] == '!' || rest[eq-1] == '<' || rest[eq-1] == '>'))) {
 				n := strings.Index(rest[eq+1:], "=")
@@ -312,7 +324,7 @@ func (ct *ContractTable) parseLines(lines []rawLine, pkg string) error {
 			if i < 0 || j < i {
 				return errf("bad spec header")
 			}
-			sf := &SpecFunc{Name: strings.TrimSpace(head[:i]), Pkg: pkg, Ret: strings.TrimSpace(head[j+1:]), Src: body}
+			sf := &SpecFunc{Name: strings.TrimSpace(head[:i]), Pkg: pkg, Ret: strings.TrimSpace(head[j+1:]), Src: body, Opaque: kw == "opaque"}
 			for _, p := range splitList(head[i+1 : j]) {
 				f := strings.Fields(p)
 				if len(f) != 2 {
